@@ -452,6 +452,7 @@ theorem nodup_step (s : State) (op : Op) (hk : (keys s.tags).Nodup) : (keys (ste
   | newRun => exact hk
   | stopRun => exact hk
   | reconnect => simp [step, keys]
+  | dupStart => exact hk
   | tags mr ups =>
     simp only [step]
     split
